@@ -710,9 +710,9 @@ func (db *DB) recoverJournalRO() error {
 			if jr == nil {
 				jr = journal.NewReader(fr, dropper{db.s, fd}, strict, checksum)
 			} else {
-				if err := jr.Reset(fr, dropper{db.s, fd}, strict, checksum); err != nil {
-					return err
-				}
+				// Ignore the error here (as recoverJournal does): Reset reports the
+				// previous journal's terminal error, io.EOF once it was read to its end.
+				_ = jr.Reset(fr, dropper{db.s, fd}, strict, checksum)
 			}
 
 			// Replay journal to memdb.
